@@ -163,7 +163,9 @@ def run_once(case, allow, fixture_lines, sess, vclock=None, record_key=None):
                 calls["keys"].append(llm._prompt_hash(prompt))
                 return real_gen(self, prompt, max_tokens, temperature)
 
-            vc = vclock
+            # elapsed time is an input of the reflection time budget: keep it at zero on a virtual clock unless the
+            # case is about the timeout (real elapsed time may exceed a 1 ms budget on a loaded machine)
+            vc = vclock if vclock is not None else VClock(pc_step=0.0)
             if fault == "timeout":
                 vc = VClock(pc_step=float(cfg["scheduler"]["budgets"]["time_ms_reflection"]) / 1000.0 + 0.5)
             extra = {"_dry_run_until_t4": True} if case["dry_run"] else None
